@@ -464,6 +464,104 @@ example :
     ((irun (fun x => x) [IOp.setFixedH true [a], IOp.cts [a] 1, IOp.setFixedH true [b]]).cts
         (fun x => x) [b] 1).2 = Res.val 1 := by decide +kernel
 
+/-! ## order independence
+
+"The minimum over all particles" does not depend on how the particles are
+split over arrays, on the order of the arrays, or on the order of the particles
+inside an array: `hmin` and the explicit `dt_adapt` step are functions of the
+*multiset* of values only.  (A scan that stopped early, skipped the first
+array or compared only neighbours would break these.) -/
+
+/-- the extended minimum of a list is unique and invariant under permutation -/
+theorem extMin_unique_of_perm {e e' : Ext α} {l l' : List α}
+    (he : IsExtMin e l) (he' : IsExtMin e' l') (hp : l.Perm l') : e = e' := by
+  cases e with
+  | none =>
+    have hl : l = [] := he
+    subst hl
+    have hl' : l' = [] := List.Perm.eq_nil hp.symm
+    subst hl'
+    cases e' with
+    | none => rfl
+    | some m => exact absurd he'.1 (by simp)
+  | some m =>
+    obtain ⟨hm, hmin⟩ := he
+    cases e' with
+    | none =>
+      have hl' : l' = [] := he'
+      subst hl'
+      have : l = [] := List.Perm.eq_nil hp
+      subst this
+      exact absurd hm (by simp)
+    | some m' =>
+      obtain ⟨hm', hmin'⟩ := he'
+      have h1 : m ≤ m' := hmin m' (hp.mem_iff.mpr hm')
+      have h2 : m' ≤ m := hmin' m (hp.mem_iff.mp hm)
+      rw [le_antisymm h1 h2]
+
+/-- `compute_h_minimum` depends only on the multiset of smoothing lengths. -/
+theorem hmin_multiset_only (arrs arrs' : List (Arr α)) (hwf : WF arrs) (hwf' : WF arrs')
+    (hp : (allH arrs).Perm (allH arrs')) : hMinimum arrs = hMinimum arrs' :=
+  extMin_unique_of_perm (hMinimum_isExtMin arrs hwf) (hMinimum_isExtMin arrs' hwf') hp
+
+/-- ... in particular not on the order in which the arrays are visited. -/
+theorem hmin_array_order_independent (arrs arrs' : List (Arr α)) (hwf : WF arrs)
+    (hp : arrs.Perm arrs') : hMinimum arrs = hMinimum arrs' := by
+  refine hmin_multiset_only arrs arrs' hwf ?_ ?_
+  · intro pa hpa; exact hwf pa (hp.mem_iff.mpr hpa)
+  · exact List.Perm.flatMap_right _ hp
+
+/-- `_get_explicit_dt_adapt` depends only on the multiset of `dt_adapt` values of
+the real particles (given that some array carries the property in both). -/
+theorem explicit_multiset_only (arrs arrs' : List (Arr α))
+    (h : arrs.any (fun pa => pa.dtAdapt.isSome) = true)
+    (h' : arrs'.any (fun pa => pa.dtAdapt.isSome) = true)
+    (hp : (adaptVals arrs).Perm (adaptVals arrs')) :
+    explicitDtAdapt arrs = explicitDtAdapt arrs' := by
+  rcases (explicit_spec arrs).2 h with ⟨hnil, hr⟩ | ⟨m, hm, hmin, hr⟩
+  · rcases (explicit_spec arrs').2 h' with ⟨_, hr'⟩ | ⟨m', hm', _, _⟩
+    · rw [hr, hr']
+    · rw [hnil] at hp
+      rw [List.Perm.eq_nil hp.symm] at hm'
+      exact absurd hm' (by simp)
+  · rcases (explicit_spec arrs').2 h' with ⟨hnil', _⟩ | ⟨m', hm', hmin', hr'⟩
+    · rw [hnil'] at hp
+      rw [List.Perm.eq_nil hp] at hm
+      exact absurd hm (by simp)
+    · have h1 : m ≤ m' := hmin m' (hp.mem_iff.mpr hm')
+      have h2 : m' ≤ m := hmin' m (hp.mem_iff.mp hm)
+      rw [hr, hr', le_antisymm h1 h2]
+
+/-- ... in particular not on the order in which the arrays are visited. -/
+theorem explicit_array_order_independent (arrs arrs' : List (Arr α)) (hp : arrs.Perm arrs') :
+    explicitDtAdapt arrs = explicitDtAdapt arrs' := by
+  have hany : arrs.any (fun pa => pa.dtAdapt.isSome) = arrs'.any (fun pa => pa.dtAdapt.isSome) := by
+    rw [Bool.eq_iff_iff]
+    simp only [List.any_eq_true]
+    constructor
+    · rintro ⟨x, hx, hx'⟩; exact ⟨x, hp.mem_iff.mp hx, hx'⟩
+    · rintro ⟨x, hx, hx'⟩; exact ⟨x, hp.mem_iff.mpr hx, hx'⟩
+  cases hb : arrs.any (fun pa => pa.dtAdapt.isSome) with
+  | false =>
+    rw [(explicit_spec arrs).1 hb, (explicit_spec arrs').1 (hany ▸ hb)]
+  | true =>
+    refine explicit_multiset_only arrs arrs' hb (hany ▸ hb) ?_
+    exact List.Perm.flatMap_right _ hp
+
+/-- non-vacuity: the same five particles split and ordered in two ways -/
+example :
+    let a : Arr ℚ := { nAll := 3, hAll := [3, 1, 2], dtAdapt := some [5, 4, 6],
+                        dtCfl := none, dtForce := none, dtVisc := none }
+    let b : Arr ℚ := { nAll := 2, hAll := [7, 9], dtAdapt := some [8, 7],
+                        dtCfl := none, dtForce := none, dtVisc := none }
+    let c : Arr ℚ := { nAll := 4, hAll := [9, 2, 7, 1], dtAdapt := some [7, 6, 8, 4],
+                        dtCfl := none, dtForce := none, dtVisc := none }
+    let d : Arr ℚ := { nAll := 1, hAll := [3], dtAdapt := some [5],
+                        dtCfl := none, dtForce := none, dtVisc := none }
+    (allH [a, b]).Perm (allH [c, d]) ∧ hMinimum [a, b] = some 1 ∧ hMinimum [c, d] = some 1 ∧
+    explicitDtAdapt [a, b] = Res.val 4 ∧ explicitDtAdapt [d, c] = Res.val 4 := by
+  refine ⟨by decide, ?_, ?_, ?_, ?_⟩ <;> decide +kernel
+
 /-! ## parallel runs -/
 
 theorem reduceMin_spec (a : α) (others : List α) :
